@@ -131,19 +131,20 @@ def build_facts(config, repo=REPO, opt=True, quiet=True):
         lock.close()
 
 
-def prune_cache(keep, max_dirs=6):
-    """Keep the facts cache small: at most max_dirs tree hashes."""
+def prune_cache(keep, max_dirs=8, min_age_s=1800):
+    """Keep the facts cache small: at most max_dirs tree hashes among those not touched for
+    min_age_s seconds.  Young directories are never removed: another process (a mutant or seeded
+    run on a scratch copy) may be writing into one right now."""
     base = os.path.join(CACHE, "facts")
+    now = time.time()
     try:
         ds = [os.path.join(base, d) for d in os.listdir(base) if os.path.isdir(os.path.join(base, d))]
     except OSError:
         return
-    ds.sort(key=lambda p: os.path.getmtime(p))
-    while len(ds) > max_dirs:
-        d = ds.pop(0)
-        if os.path.basename(d) == keep:
-            continue
-        shutil.rmtree(d, ignore_errors=True)
+    old = [p for p in ds if now - os.path.getmtime(p) > min_age_s and os.path.basename(p) != keep]
+    old.sort(key=lambda p: os.path.getmtime(p))
+    while len(old) > max_dirs:
+        shutil.rmtree(old.pop(0), ignore_errors=True)
 
 
 if __name__ == "__main__":
